@@ -32,6 +32,8 @@ fn assignments(seed: u64, used: &[bool; 5], pos: &[bool; 5]) -> Vec<Vec<Option<i
     for v in [0, 1, 2, 7] {
         out.push(mk(&mut |_| v));
     }
+    // unconstrained symbols -1, positive ones 1
+    out.push(mk(&mut |i| if pos[i] { 1 } else { -1 }));
     // one symbol k, the others 1
     let k = rng.pick(&[2, 3, 256, 768]);
     let who = rng.below(5) as usize;
